@@ -35,12 +35,14 @@ THEOREMS = [
     "C08.chunk_ops_cells",
     "C08.format_cells",
     "C08.format_plain",
+    "C08.format_width",
     "C08.eq_iff",
     "C08.eq_str_iff",
     "C08.eq_chunk_iff",
     "C08.chunk_eq_iff",
     "C08.eval_refines",
     "C08.reachable_canon",
+    "C08.eq_parts",
     "C08.eval_observe",
 ]
 
@@ -379,7 +381,8 @@ def show_real(obj):
         chunks = "/".join("%s:%s" % (_col_id(c.c_prefix, c.c_suffix), enc_str(c.text)) for c in obj.chunks) or "-"
         return "T %d %s P %s X %s" % (len(obj), chunks, enc_str(obj.plain_text()), _enc_cells(_cells_of_str(str(obj))))
     if isinstance(obj, col.CHText.Chunk):
-        return "C %s:%s L %d" % (_col_id(obj.c_prefix, obj.c_suffix), enc_str(obj.text), len(obj))
+        return "C %s:%s L %d P %s X %s" % (_col_id(obj.c_prefix, obj.c_suffix), enc_str(obj.text), len(obj),
+                                          enc_str(obj.plain_text()), _enc_cells(_cells_of_str(str(obj))))
     if isinstance(obj, str):
         return "S " + enc_str(obj)
     if isinstance(obj, (list, tuple)):
@@ -751,6 +754,8 @@ FILLS = [None, "*", " ", "0", "<", ">", "^", "x", "s", "5", "é", "=", "{"]
 
 
 def _rtext(rng, lo=0, hi=4):
+    if hi == 4 and rng.random() < 0.1:
+        hi = 9
     return "".join(rng.choice(ALPHA) for _ in range(rng.randint(lo, hi)))
 
 
@@ -1019,6 +1024,28 @@ def gen_cases(rng, tier):
             yield _case(line_of("val", [("flalias", _base_tree(base), n, ("s", "q"))]), "alias-fixedlen")
 
 
+def corpus():
+    """minimised witnesses of the mutation experiments (each distinguishes a realistic defect)"""
+    lines = [
+        "val c:1:98 mk:1 sl:-2:n",            # negative start beyond the beginning is clamped to 0
+        "val c:1:98 c:0:99 mk:2 idx:-1",      # last character of the last chunk
+        "val c:1:98 c:0:99 mk:2 idx:1",       # first character of the second chunk
+        "fmt 94,51 c:1:97,98",                # centring: the odd pad goes to the right
+        "val mk:0",                           # CHText() == ""
+        "val tp:0 mk:1",                      # a tuple is iterated like a list
+        "eq c:1:- mk:0",                      # empty text == empty chunk of any colour
+        "val c:1:98 mk:1 fl:2",               # fixed_len pads in the default colour
+        "val c:1:98 fl:0",                    # Chunk.fixed_len truncates
+        "fmt 60,49 mk:0",                     # '<1': default fill is a space
+        "fmt 115 mk:0",                       # type character s
+        "fmt 51 c:1:98",                      # default align is left
+        "val c:1:97 c:1:98 s:99 s:100 mk:4",  # merging of equal neighbours
+        "val c:1:120 c:1:- join:t:1",         # join of one element has no separator
+        "val c:0:99 fl:2",                    # len() after a merge
+    ]
+    return [{"lines": [l], "meta": {"kind": "corpus"}} for l in lines]
+
+
 def search_cases(rng, tier):
     """directed search: all slices / indexes / widths over every split of a short text into colored chunks,
     after every way of assembling it"""
@@ -1161,6 +1188,29 @@ KNOWN = {
     "fixed_len_alias": lambda case: any(tok.startswith("flalias:") for l in case["lines"] for tok in l.split()),
 }
 
-LEVEL_TEXT = ("TODO")
-LEVEL_NOTE = ("TODO")
+LEVEL_TEXT = ("Kernel-checked for all inputs on the Lean model of CHText / CHText.Chunk (chunk = colour id + text, cached scrlen): "
+              "(1) the state invariant (no empty chunk, neighbours differ in colour, scrlen = number of visible characters) holds "
+              "for CHText() and is preserved by _append_chunk, += with str/chunk/text/nested list/tuple, the constructor, +, "
+              "reflected +, join, [i], [i:j], fixed_len (C08.canon); (2) refinement to the list of (character, colour) cells, one "
+              "theorem per operation: += / constructor / + / reflected + concatenate cells, join = str.join, [i:j] = Python slicing "
+              "for None/negative/out-of-range bounds (pySlice, itself proved against the index-level definition of the language "
+              "reference), [i] = str indexing with IndexError in exactly the same cases, fixed_len = s[:n].ljust(n), "
+              "format(text, [[fill]align][width][s]) = Python's padding of the cells with default-coloured pads, hence its visible "
+              "text = format(plain_text, spec); the chunk versions likewise; (3) == on texts satisfying the invariant is equality of "
+              "cells (canonical chunk list is unique: C08.canon_repr), text == str iff default-coloured cells of that str, text == "
+              "chunk, chunk == chunk/str outside the both-empty exception, with Python's reflected dispatch (C08.eq_parts); "
+              "(4) C08.eval_refines: every typed operation tree of any depth over these operations evaluates in the model to a "
+              "value whose texts satisfy the invariant and whose cells are exactly what the same operations give on plain "
+              "sequences, or both raise IndexError. The characters of __format__/fixed_len (align set, defaults, type char, pad) are "
+              "regenerated from ak/color.py on every run. Model = code is established by the differential run (exact chunk lists, "
+              "len(), plain_text(), str() read back into cells, format output cells, ==, != in both directions), not proved.")
+LEVEL_NOTE = ("Trusted: Lean kernel (axioms propext, Classical.choice, Quot.sound), translator/adapter/oracle in harness/c08.py, the "
+              "sampled correspondence (exhaustive slices/indexes/fixed_len/widths on 7 base texts, 16 k random trees quick / 400 k "
+              "thorough), CPython's str on the oracle side. Not modelled: escape sequences themselves (C09), CHText.make / "
+              "resize_chunks_list (internal, C12), iteration over a text, slice steps (rejected by CHText), format specs outside "
+              "[[fill]align][width][s] (zero flag, precision, sign: the model answers `unmodelled` or follows the code, no theorem), "
+              "negative fixed_len (model follows the code, outside the property), object identity: the model is value-based, so "
+              "operations whose operands are the same object are outside it - `t += t` on a text of >= 2 chunks does not "
+              "terminate in the real code and fixed_len returns the text itself when the length already fits (opt-in stream "
+              "C08_ALIASING=1 reports both).")
 TECHNIQUE = "Lean 4 refinement proof (chunk list -> list of coloured cells) + canonical-form invariant + correspondence check on operation trees"
